@@ -720,6 +720,7 @@ impl Gen
         let write_chunk = if self.big_files { *self.rng.pick(&[0usize, 0, 0, 4096]) } else { *self.rng.pick(&[0usize, 0, 0, 0, 7, 16, 64]) };
         let clock = match self.cfg.clock
         {
+            Some(ClockMode::Distinct) => if self.rng.chance(1, 4) { ClockMode::Unordered } else { ClockMode::Distinct },
             Some(c) => c,
             None => if self.rng.chance(1, 2) { ClockMode::Distinct } else { ClockMode::Tick },
         };
